@@ -1,6 +1,7 @@
 import RbV.Basic.Codec
 import RbV.Ref.EditDist
 import RbV.Model.Ukkonen
+import RbV.Model.MyersSimple
 /-! Driver for property C09: approximate matchers and distance functions.
 
 `c09 my <s|l> <w> <new|bld> <pattern> <amb> <wild> <op>/… => <obs>/…`
@@ -64,6 +65,16 @@ def expectOp (eqv : Nat → Nat → Bool) (p : List Nat) (op : String) : Option 
     | none => none
   | _ => none
 
+/-- the mirror model of the single-word matcher (`Model.MyersSimple`, proved equal to the oracle for 1 ≤ |p| ≤ w) on a
+`f:<k>:<text>` operation; `none` for the other operations -/
+def modelOp (w : Nat) (eqv : Nat → Nat → Bool) (p : List Nat) (op : String) : Option String :=
+  match op.splitOn ":" with
+  | ["f", ks, th] =>
+    match parseNat ks, parseHex th with
+    | some k, some t => some (showPairs (RbV.Model.MyersSimple.findAllEnd w eqv p t k))
+    | _, _ => none
+  | _ => none
+
 def dedupTags (s : String) : String :=
   let ws := (s.splitOn " ").filter (· ≠ "")
   let u := ws.foldl (fun acc x => if acc.contains x then acc else acc ++ [x]) []
@@ -90,7 +101,14 @@ def verdictMy (toks : List String) (out : String) : String :=
         let ok := (exps.zip obs).all fun (e, o) => match e.1 with
           | some s => s == o
           | none => true
+        -- single-word version: run the mirror model too; it is proved equal to the oracle, so a difference between
+        -- model and oracle is a drift of the compiled driver, never a violation
+        let drift := impl = "s" && (ops.zip exps).any fun (op, e) =>
+          match modelOp w eqv p op, e.1 with
+          | some ms, some es => ms != es
+          | _, _ => false
         let tags := dedupTags (String.join (exps.map (·.2)) ++ " " ++ impl ++ toString w
+          ++ (if drift then " drift" else "")
           ++ (if p.length = w then " m=w" else "") ++ (if p.length > w then " blocks>1" else "")
           ++ (if p.length > 2 * w then " blocks>2" else "")
           ++ (if !amb.isEmpty || !wild.isEmpty then " tables" else "") ++ (if ops.length > 1 then " reuse" else ""))
